@@ -277,7 +277,8 @@ pub fn ontology_sequences(ctx: &mut Ctx, prefix: &str, mode: Mode, per_ont: &mut
                     ctx.exec();
                     ctx.validated();
                     ctx.transitions(f.n_steps());
-                    slot = None;
+                    // drop the previous ontology first, so that the next one is built where it was
+                    drop(slot.take());
                     match drive::build(f, mode) {
                         Ok(o) => slot = Some(o),
                         Err(e) => {
